@@ -422,15 +422,32 @@ def run(ctx):
         okm = mg.cfg.node_dominates(_first_cfg_node(mg, mguard), _first_cfg_node(mg, loops_[0]))
     ctx.ob("R6.guard", "merge-equal-size|%s:carquet_bloom_filter_merge" % BF, P.where(mg.body),
            "merge refuses filters of different size before touching bits", okm)
-    mst = [a for a in assignments(mg.body) if a.c[0].strip().k == "ArraySubscriptExpr"]
-    okmi = False
-    if len(mst) == 1:
-        l, r = nocast(cz(mst[0].c[0])), nocast(cz(mst[0].c[1]))
-        okmi = (l[0] == "index" and r[0] == "index" and l[2] == r[2] and mst[0].op == "|="
-                and l[1] == ("member", ("param", 0, "carquet_bloom_filter_t *"), "data")
-                and r[1] == ("member", ("param", 1, "carquet_bloom_filter_t *"), "data"))
-    ctx.ob("R11.monotone", "merge-or|%s:carquet_bloom_filter_merge" % BF, P.where(mg.body),
-           "merge ORs src.data[i] into dest.data[i] for the same i", okmi)
+    # every store of merge: dest word |= src word with the same index, and the loops cover all bytes
+    mst = [a for a in assignments(mg.body)
+           if a.c[0].strip().k in ("ArraySubscriptExpr", "UnaryOperator") and a.c[0].strip().k != "DeclRefExpr"
+           and (a.c[0].strip().k == "ArraySubscriptExpr" or a.c[0].strip().op == "*")]
+    ctx.floor("C20 merge stores", len(mst), 1)
+    dparam = ("member", ("param", 0, "carquet_bloom_filter_t *"), "data")
+    sparam = ("member", ("param", 1, "carquet_bloom_filter_t *"), "data")
+    for stn in mst:
+        l, r = nocast(cz(stn.c[0])), nocast(cz(stn.c[1]))
+        okmi = (l[0] == "index" and r[0] == "index" and l[2] == r[2] and stn.op == "|="
+                and l[1] == dparam and r[1] == sparam)
+        ctx.ob("R11.monotone", "merge-or|%s:carquet_bloom_filter_merge" % BF, P.where(stn),
+               "merge ORs src.data[k] into dest.data[k] for the same k", okmi,
+               "%s %s %s" % (show(l), stn.op, show(r)))
+    # coverage: filter size is a multiple of 32 bytes (invariant of create/from_data); a loop
+    # `for (i = 0; i + K <= B; i += K)` over elements of e bytes with B*e == num_bytes covers
+    # everything iff K*e divides 32 or a tail loop finishes the remainder.
+    cov = _merge_coverage(mg, cz)
+    key = "merge-coverage|%s:carquet_bloom_filter_merge" % BF
+    if cov[0] == "ok":
+        ctx.ok("R11.coverage", key, P.where(mg.body), "merge loop(s) cover every byte of the filter", cov[1])
+    elif cov[0] == "bad":
+        ctx.bad("R11.coverage", key, P.where(mg.body),
+                "merge does not OR every block of the source into the destination", cov[1])
+    else:
+        ctx.inconclusive("R11.coverage", key, P.where(mg.body), "merge loop shape not recognised", cov[1])
 
     # ---- (6b) XXH64 constants
     xf = P.fn("carquet_xxhash64", XX)
@@ -451,6 +468,82 @@ def run(ctx):
                ok, "found %d" % have)
     ctx.count("xxh64_fingerprint_pairs", len(fp))
     ctx.floor("XXH64 constant sites", sum(fp.values()), 40)
+
+
+def _elem_size(node):
+    t = (node.t or "").replace("const ", "").strip()
+    return {"uint8_t": 1, "unsigned char": 1, "char": 1, "uint16_t": 2, "uint32_t": 4,
+            "unsigned int": 4, "uint64_t": 8, "unsigned long": 8, "size_t": 8,
+            "unsigned long long": 8}.get(t)
+
+
+def _merge_coverage(mg, cz):
+    """Decide whether the for-loops of merge visit every byte of dest->data."""
+    loops = [n for n in mg.body.walk() if n.k == "ForStmt"]
+    if not loops:
+        return ("unknown", "no for loop")
+    nbytes = ("member", ("param", 0, "carquet_bloom_filter_t *"), "num_bytes")
+    nbytes2 = ("member", ("param", 1, "carquet_bloom_filter_t *"), "num_bytes")
+    info = []
+    for lp in loops:
+        init, cond, inc, body = lp.c[0], lp.c[2], lp.c[3], lp.c[4]
+        if cond is None or inc is None:
+            return ("unknown", "loop without condition/increment")
+        c = fold(nocast(cz(cond)))
+        # stride
+        incn = inc.strip()
+        if incn.k == "UnaryOperator" and incn.op == "++":
+            K = 1
+        elif incn.k == "CompoundAssignOperator" and incn.op == "+=" and incn.c[1].cv is not None:
+            K = incn.c[1].cv
+        else:
+            return ("unknown", "unrecognised increment " + src(inc))
+        # condition i < B  or  i + K <= B  (canon turns a > b into b < a)
+        if c[0] != "bin" or c[1] not in ("<", "<="):
+            return ("unknown", "unrecognised loop condition " + show(c))
+        lhs, B = c[2], c[3]
+        slack = 0
+        if c[1] == "<=":
+            if lhs[0] == "bin" and lhs[1] == "+" and lhs[2][0] == "int":
+                slack = lhs[2][1]
+            else:
+                return ("unknown", "unrecognised loop condition " + show(c))
+            if slack != K:
+                return ("unknown", "loop condition slack %d differs from stride %d" % (slack, K))
+        elif K != 1:
+            return ("unknown", "strided loop with '<' condition")
+        # element size from the stores in the body
+        sizes = set()
+        for a in assignments(body):
+            l = a.c[0].strip()
+            if l.k == "ArraySubscriptExpr":
+                sizes.add(_elem_size(l))
+        if len(sizes) != 1 or None in sizes:
+            return ("unknown", "cannot determine element size")
+        e = sizes.pop()
+        # bound must be num_bytes / e
+        if e == 1:
+            okB = B in (nbytes, nbytes2)
+        else:
+            okB = B in (("bin", "/", nbytes, ("int", e)), ("bin", "/", nbytes2, ("int", e)))
+        starts_zero = init is not None and any(x.cv == 0 for x in init.walk() if x.k == "IntegerLiteral")
+        info.append((K, e, okB, starts_zero, show(c)))
+    first = info[0]
+    K, e, okB, z, txt = first
+    if not okB:
+        return ("unknown", "loop bound is not num_bytes/elem: " + txt)
+    if not z:
+        return ("unknown", "loop does not start at 0")
+    if K == 1:
+        return ("ok", "unit stride over %s, %d-byte elements" % (txt, e))
+    if 32 % (K * e) == 0:
+        return ("ok", "stride %d x %d bytes divides the 32-byte block" % (K, e))
+    # needs a tail loop with unit stride up to the same bound
+    for (K2, e2, okB2, z2, txt2) in info[1:]:
+        if K2 == 1 and e2 == e and okB2 and not z2:
+            return ("ok", "strided main loop plus unit-stride tail loop")
+    return ("bad", "loop advances %d bytes per iteration (%s) with no tail loop: filter sizes are "
+            "multiples of 32 bytes only, the last %d-byte remainder is skipped" % (K * e, txt, 32 % (K * e)))
 
 
 def _is_roundup32(t):
